@@ -513,7 +513,8 @@ SPEC = {
              'every adopted step the full structural invariant wellformed() (operands/outputs exist, users multiset, inputs '
              'list, acyclic, both top-sorts, block labels, copy equal + independent) and agreement of evaluate / '
              'evaluate_full_circuit with the reference run. Non-trivial: history with >=3 adopted mutations incl. one of '
-             'right-connect / rename / replace_subcircuit / into_bench / remove_gate / remove_block; distinct by operation log.'),
+             'right-connect / rename / replace_subcircuit / into_bench / remove_gate / remove_block; distinct by operation log.'
+             ' Added during the build: refused calls of several kinds per mutator (repeated / non-input / extra labels for set_inputs, repeated replaced-side connector pairs, several inputs per replace_inputs list in an order of their own), a rule for replacements whose outputs feed each other, a copy.copy taken just before every third call that has to stay as it was, and the other circuits of the pool compared around every call.'),
     'assumptions': ['non-CirboError exceptions of a call are counted, not judged (the statement is conditional on normal return)'],
     'subs': [Sub('histories', None, check_history, {'quick': 3200, 'thorough': 192000}, stateful=make_machine)],
     'required_classes': {'histories': ['k:connect_right_like', 'k:connect_left_like', 'k:rename_gate', 'k:replace_subcircuit',
